@@ -755,7 +755,7 @@ func (ctx Ctx) callExpr(s *ast.CallExpr) coq.Expr {
 	if isIdent(s.Fun, "uint32") {
 		return ctx.integerConversion(s, s.Args[0], 32)
 	}
-	if isIdent(s.Fun, "uint8") {
+	if isIdent(s.Fun, "uint8") || isIdent(s.Fun, "byte") {
 		return ctx.integerConversion(s, s.Args[0], 8)
 	}
 	if isIdent(s.Fun, "panic") {
